@@ -1,20 +1,23 @@
 #!/bin/bash
-# tools/eval_seed.sh <worktree> <name> <ID> [<ID>...] : import a seeded fault, confirm its demo, run checks against it.
+# tools/eval_seed.sh <worktree-or-seeded-dir> <name> <ID> [<ID>...]
+# import a seeded fault into /verif/seeded/<name>, confirm its demo on a pristine and a patched scratch worktree,
+# run the quick checks against the patched scratch copy (VERIF_REPO), remove the scratch copy.  /repo is not touched.
 wt="$1"; name="$2"; shift 2
 dst=/verif/seeded/$name
 mkdir -p $dst
-cp $wt/patch.diff $wt/demo.py $wt/meta.json $dst/ 2>/dev/null
-cd /repo || exit 2
-if ! git diff --quiet; then echo "repo dirty"; exit 2; fi
-echo "--- demo on unchanged tree:"; (cd /tmp && PYTHONPATH=/repo timeout 600 /venv/bin/python $dst/demo.py >/dev/null 2>&1; echo "rc=$?")
-git apply $dst/patch.diff || { echo "patch does not apply"; exit 2; }
-trap 'git -C /repo checkout -- . ' EXIT
-echo "--- demo with patch:"; (cd /tmp && PYTHONPATH=/repo timeout 600 /venv/bin/python $dst/demo.py >/dev/null 2>&1; echo "rc=$?")
+[ "$(readlink -f $wt)" != "$(readlink -f $dst)" ] && cp $wt/patch.diff $wt/demo.py $wt/meta.json $dst/ 2>/dev/null
+scr=/var/tmp/vr/$name
+rm -rf $scr; mkdir -p /var/tmp/vr
+git -C /repo worktree add --detach $scr HEAD -q || exit 2
+trap 'git -C /repo worktree remove --force '$scr' 2>/dev/null; git -C /repo worktree prune' EXIT
+echo "--- demo on unchanged tree:"; (cd /tmp && PYTHONPATH=$scr timeout 900 /venv/bin/python $dst/demo.py >/dev/null 2>&1; echo "rc=$?")
+git -C $scr apply $dst/patch.diff || { echo "patch does not apply"; exit 2; }
+echo "--- demo with patch:"; (cd /tmp && PYTHONPATH=$scr timeout 900 /venv/bin/python $dst/demo.py >/dev/null 2>&1; echo "rc=$?")
 cd /verif
 for id in "$@"; do
-  out=$(VERIF_NO_CONFIRM=1 VERIF_BUDGET=${MUT_BUDGET:-300} ./check "$id" 2>&1)
+  out=$(VERIF_REPO=$scr VERIF_NO_CONFIRM=1 VERIF_BUDGET=${MUT_BUDGET:-300} ./check "$id" 2>&1)
   rc=$?
   echo "== $name $id rc=$rc"
-  echo -e "$(date -u +%FT%TZ)\t$name\t$id\trc=$rc\t$(echo "$out" | grep -m1 "violation:" | cut -c1-200)" >> /verif/seeded/results.tsv
   echo "$out" | grep -E "violation:|VIOLATION" | head -${MUT_LINES:-3} | cut -c1-500
+  echo -e "$(date -u +%FT%TZ)\t$name\t$id\trc=$rc\t$(echo "$out" | grep -m1 "violation:" | cut -c1-200)" >> /verif/seeded/results.tsv
 done
